@@ -246,6 +246,12 @@ fn strip_csi(b: &[u8]) -> Vec<u8> {
 /// well-formed sequence; TAB, CR and the other C0 controls outside sequences must survive.
 fn strip_judgeable(raw: &[u8], keep: bool) -> bool {
     let b = if keep { raw.to_vec() } else { crlf_to_lf(raw) };
+    // no ESC at all: there is no escape sequence, whatever the bytes are (0x9b, 0x90, 0x9d ... are
+    // ordinary UTF-8 continuation bytes); only properly encoded C1 controls (c2 80 .. c2 9f) stay
+    // out of scope
+    if !b.contains(&0x1b) {
+        return !b.windows(2).any(|w| w[0] == 0xc2 && (0x80..0xa0).contains(&w[1]));
+    }
     let Ok(text) = std::str::from_utf8(&b) else {
         return false;
     };
@@ -626,7 +632,7 @@ fn gen_case(tier: Tier, k: u64, rng: &mut Rng) -> Case {
         case.tests = vec![T { cmd: Cmd::Chunks { chunks: vec![Chunk { fd: 1, data: p }] }, code: 0, ifs: None, pre: None, fail_last: false }];
         return case;
     }
-    let fam = rng.weighted(&[22, 8, 26, 18, 12, 4, 5, 3, 2, 6, 14, 10, 8, 12, 9, 10, 8]);
+    let fam = rng.weighted(&[22, 8, 26, 18, 12, 4, 5, 3, 2, 6, 14, 10, 8, 12, 9, 10, 8, 14]);
     match fam {
         0 => {
             case.family = "render-direct".into();
@@ -921,6 +927,58 @@ fn gen_case(tier: Tier, k: u64, rng: &mut Rng) -> Case {
                         let chunks = vec![Chunk { fd: 1, data: payload(rng) }, Chunk { fd: 2, data: payload(rng) }];
                         case.tests.push(T { cmd: Cmd::Chunks { chunks }, code: gen_code(rng), ifs: None, pre: None, fail_last: false });
                     }
+                }
+            }
+        }
+        17 => {
+            // text whose UTF-8 encoding contains the bytes of the C1 sequence introducers (9b CSI,
+            // 90 DCS, 9d OSC, 9e PM, 9f APC, 98 SOS), directly followed by what a sequence would
+            // swallow; also ESC-free invalid UTF-8 with those bytes: nothing of it is a sequence
+            case.strip = Some(true);
+            let invalid = rng.chance(1, 3);
+            let payload = |rng: &mut Rng| {
+                let mut p = Payload::default();
+                for _ in 0..rng.range(2, 5) {
+                    let piece: Vec<u8> = if invalid {
+                        rng.pick(&[&b"\x9b31mred\n"[..], b"ab\x9d0;title\x07x\n", b"\xff\x9b1;2Hx\n", b"\x90data\x9ctail\n", b"\x98s \x9e p \x9f a\n", b"\xc4\n9b alone\n", b"plain\n"]).to_vec()
+                    } else {
+                        match rng.below(12) {
+                            0 => "ě1;31m red\n".as_bytes().to_vec(),
+                            1 => "⌛0m done\n".as_bytes().to_vec(),
+                            2 => "😛2Jx cleared\n".as_bytes().to_vec(),
+                            3 => "Đdata until the end\n".as_bytes().to_vec(),
+                            4 => "ĝ0;title\x07after\n".as_bytes().to_vec(),
+                            5 => "Ğpm ğapc Ęsos\n".as_bytes().to_vec(),
+                            6 => "řádek ěščřžýáíé 12;3H\n".as_bytes().to_vec(),
+                            7 => "ě\n⌛\n😛".as_bytes().to_vec(),
+                            8 => "\x1b[31mě1m\x1b[0m⌛;\n".as_bytes().to_vec(),
+                            9 => "tab\tě[1m\r\n".as_bytes().to_vec(),
+                            _ => {
+                                let mut l = text_line(rng);
+                                l.push(b'\n');
+                                l
+                            }
+                        }
+                    };
+                    p.push(&piece, 1);
+                }
+                p
+            };
+            match rng.below(5) {
+                0 | 1 => {
+                    case.family = "strip-c1bytes-render".into();
+                    case.mode = "render".into();
+                    case.tests = vec![T { cmd: Cmd::Chunks { chunks: vec![Chunk { fd: 1, data: payload(rng) }] }, code: 0, ifs: None, pre: None, fail_last: false }];
+                }
+                w => {
+                    if w == 4 {
+                        case.family = "strip-c1bytes-cram".into();
+                        case.mode = "cram".into();
+                    } else {
+                        case.family = "strip-c1bytes-markdown".into();
+                    }
+                    let chunks = vec![Chunk { fd: 1, data: payload(rng) }, Chunk { fd: 2, data: payload(rng) }];
+                    case.tests.push(T { cmd: Cmd::Chunks { chunks }, code: gen_code(rng), ifs: None, pre: None, fail_last: false });
                 }
             }
         }
@@ -1289,6 +1347,12 @@ fn evidence(case: &Case) -> (bool, u64, Vec<String>) {
     let shape = hash_str(&format!("{cfg}|{:?}|{bucket}", classes));
     let mut b = vec![
         format!("family:{}", case.family),
+        // the family without its execution mode: floors are set on these (the per-mode counts of
+        // the small families are too low to carry a floor of their own)
+        format!(
+            "group:{}",
+            ["-render", "-markdown", "-cram", "-direct"].iter().find_map(|m| case.family.strip_suffix(m)).unwrap_or(&case.family)
+        ),
         format!("mode:{}", case.mode),
         format!("cfg:stream={}", case.stream),
         format!("cfg:keep_crlf={:?}", case.keep_crlf),
@@ -1823,7 +1887,7 @@ impl Monitor for C13 {
 
     fn plan(&self, tier: Tier) -> Plan {
         let mut p = Plan::new(
-            tier.pick(220, 16000),
+            tier.pick(300, 16000),
             "sequences of 1-6 test commands writing payload files / literals to fd 1 and fd 2 with a chosen exit code, both executors, output_stream x keep_crlf x strip_ansi_escaping; direct calls of replace_crlf and render_output; non-trivial = payload with a transform trigger (CR LF, ESC), a marker/placeholder look-alike or > 64 KiB; distinct = hash of (mode, configuration, payload class set, size bucket)",
         );
         p.chunk = 4;
@@ -1845,16 +1909,15 @@ impl Monitor for C13 {
             ("cfg:keep_crlf=Some(true)".into(), f(8, 200)),
             ("cfg:strip=Some(true)".into(), f(4, 100)),
             ("sequence>1".into(), f(8, 200)),
-            ("family:cram-long".into(), f(2, 100)),
-            ("family:ifs-markdown".into(), f(2, 100)),
-            ("family:ifs-cram".into(), f(1, 60)),
-            ("family:strip-c0-render".into(), f(1, 50)),
-            ("family:strip-c0-markdown".into(), f(1, 50)),
-            ("family:trace-markdown".into(), f(2, 100)),
-            ("family:errexit-markdown".into(), f(3, 150)),
-            ("family:crlf-late-render".into(), f(1, 60)),
-            ("class:backslash-end".into(), f(2, 100)),
-            ("strip:malformed-sequences".into(), f(1, 50)),
+            ("group:cram-long".into(), f(2, 100)),
+            ("group:ifs".into(), f(4, 200)),
+            ("group:strip-c0".into(), f(2, 100)),
+            ("group:trace".into(), f(2, 100)),
+            ("group:errexit".into(), f(3, 150)),
+            ("group:crlf-late".into(), f(2, 100)),
+            ("group:backslash".into(), f(2, 100)),
+            ("group:strip-malformed".into(), f(2, 100)),
+            ("group:strip-c1bytes".into(), f(2, 100)),
             ("sequence>10".into(), f(2, 100)),
         ];
         p.assumptions = vec![
